@@ -213,6 +213,70 @@ def _splice(caller, bi, callee, callee_name):
     caller.setdefault("inlined", []).append(callee_name)
 
 
+def load_pinned_fields(config="default"):
+    try:
+        with open(PINNED) as f:
+            return json.load(f)["fields"][config]
+    except (OSError, ValueError, KeyError):
+        return None
+
+
+def adt_fields(adt):
+    """[(variant, field name, type)] of an ADT record of the fact base"""
+    return [[v["name"], f["name"], f["ty"]] for v in adt.get("variants", []) for f in v.get("fields", [])]
+
+
+def alias_renamed_fields(j, pinned_fields):
+    """A reviewed field that disappeared from an ADT while exactly one new field of the same type appeared in the same variant is
+    that field under a new name (`drop_guard` -> `_drop_guard`): analyse it under the reviewed name.  Returns {adt: {reviewed: current}}."""
+    out = {}
+    for adt, old in pinned_fields.items():
+        cur = j["adts"].get(adt)
+        if cur is None:
+            continue
+        now = adt_fields(cur)
+        old_s = {(v, n) for v, n, t in old}
+        now_s = {(v, n) for v, n, t in now}
+        gone = [(v, n, t) for v, n, t in old if (v, n) not in now_s]
+        new = [(v, n, t) for v, n, t in now if (v, n) not in old_s]
+        for v, n, t in gone:
+            c = [x for x in new if x[0] == v and x[2] == t]
+            g = [x for x in gone if x[0] == v and x[2] == t]
+            if len(c) == 1 and len(g) == 1:
+                out.setdefault(adt, {})[n] = c[0][1]
+    if not out:
+        return out
+    back = {adt: {cur: old for old, cur in m.items()} for adt, m in out.items()}
+    allnew = {cur: old for m in out.values() for old, cur in m.items()}
+
+    def fix(x):
+        if isinstance(x, dict):
+            if x.get("ak") == "adt" and x.get("adt") in back and isinstance(x.get("fields"), list):
+                x["fields"] = [back[x["adt"]].get(f, f) for f in x["fields"]]
+            for v in x.values():
+                fix(v)
+        elif isinstance(x, list):
+            if len(x) >= 3 and x[0] == "f" and isinstance(x[1], str):
+                if x[1] in back and x[2] in back[x[1]]:
+                    x[2] = back[x[1]][x[2]]
+                elif x[1] == "upvar" and isinstance(x[2], str):
+                    x[2] = ".".join(allnew.get(seg, seg) for seg in x[2].split("."))
+                return
+            for v in x:
+                fix(v)
+    for jb in j["bodies"].values():
+        fix(jb["blocks"])
+        if "upvars" in jb:
+            jb["upvars"] = [".".join(allnew.get(seg, seg) for seg in u.split(".")) for u in jb["upvars"]]
+    for adt, m in back.items():
+        for v in j["adts"][adt].get("variants", []):
+            for f in v.get("fields", []):
+                if f["name"] in m:
+                    f["name"] = m[f["name"]]
+    j["renamed_fields"] = out
+    return out
+
+
 def inline_new_helpers(j, pinned=None, config="default"):
     """j: loaded fact base (dict).  Returns a report {helper: [callers...]} ; mutates j['bodies']"""
     if pinned is None:
@@ -220,6 +284,9 @@ def inline_new_helpers(j, pinned=None, config="default"):
     if pinned is None:
         return {}
     alias_renamed(j, pinned)
+    pf = load_pinned_fields(config)
+    if pf:
+        alias_renamed_fields(j, pf)
     bodies = j["bodies"]
     cand = {n for n, jb in bodies.items() if inlineable(n, jb, pinned)}
     if not cand:
